@@ -52,6 +52,7 @@ pub fn run(ctx: &mut Ctx) {
     for w in 0..walks {
         let mut o = if w % 3 == 0 { gen::Opts::all(tmax) } else { gen::Opts::basic(tmax) };
         o.allow_never = false;
+        o.allow_loose = false; // realisable (super-additive) delta-min prefixes only, see DESIGN.md §3.2
         o.allow_derived = false;
         let n = ctx.rng.gen_range(1..=3);
         let mut tasks: Vec<Value> = (0..n).map(|_| gen_task(&mut ctx.rng, &o, 3, true)).collect();
@@ -184,6 +185,7 @@ pub fn run_ros2(ctx: &mut Ctx) {
     for _w in 0..walks {
         let mut o = gen::Opts::basic(tmax);
         o.allow_never = false;
+        o.allow_loose = false; // realisable (super-additive) delta-min prefixes only, see DESIGN.md §3.2
         let n = ctx.rng.gen_range(1..=3);
         let mut tasks: Vec<Value> = (0..n).map(|_| ros_task(&mut ctx.rng, &o)).collect();
         let mut b = ctx.rng.gen_range(0..=2u64);
